@@ -204,8 +204,9 @@ func main() {
 	rep.Rule = "E1 lattice: abstract CRS records (Mercator_1SP, Lambert_Conformal_Conic_2SP, Albers, Equidistant_Conic in both parameter spellings, Transverse_Mercator, plain GEOGCS) x parameter sets (northern / southern cones, 1SP) x 4 (6) spheroids by (a, 1/f) x TOWGS84 {none, 3 terms, 7 terms, 7 terms with zero translations} x linear unit {metre, foot, US survey foot}, each rendered by two independent renderers as PROJ.4 and as OGC WKT 1 with neutral names; transformers from the own geographic base (and from WGS84 long/lat when a TOWGS84 is stated) must agree within 1 micrometre at 16-20 positions; registered names and aliases against their definitions; every ordered pair of a pool of 34 references differing in one field each: parsing twice gives Equal, NewTransform is nil exactly for Equal references, and a nil transformer is returned only for references that transform identically; a .prj read through (*shp.Decoder).SR equals Parse of its text. Non-trivial = records with a non-metre unit, a TOWGS84 clause or the alternative parameter spelling."
 	var n, nontrivial int64
 	spheroids := [][2]float64{{6378137, 298.257223563}, {6377397.155, 299.1528128}, {6378206.4, 294.9786982}, {6378388, 297}}
+	spheroids = append(spheroids, [2]float64{6377563.396, 299.3249646}, [2]float64{6378160, 298.25})
 	if tier == "thorough" {
-		spheroids = append(spheroids, [2]float64{6377563.396, 299.3249646}, [2]float64{6378160, 298.25})
+		spheroids = append(spheroids, [2]float64{6377276.345, 300.8017}, [2]float64{6378249.145, 293.465}, [2]float64{6376523, 308.64})
 	}
 	towgs := [][]float64{nil, {-87, -98, -121}, {577.326, 90.129, 463.919, 5.137, 1.474, 5.297, 2.4232}, {0, 0, 0, 0.35, -0.12, 1.1, 2.5}}
 	var recs []record
